@@ -35,10 +35,10 @@ fn pop_strategy(c12: bool) -> BoxedStrategy<POp> {
         (3, Just(POp::Discard).boxed()),
     ];
     if c12 {
-        v.push((12, size.prop_map(|n| POp::AllocOwned { n }).boxed()));
+        v.push((22, size.prop_map(|n| POp::AllocOwned { n }).boxed()));
         v.push((6, Just(POp::CloneArena).boxed()));
         v.push((6, Just(POp::DropClone).boxed()));
-        v.push((10, (any::<u16>(), 0u8..4).prop_map(|(h, to)| POp::Send { h, to }).boxed()));
+        v.push((18, (any::<u16>(), 0u8..4).prop_map(|(h, to)| POp::Send { h, to }).boxed()));
         v.push((10, Just(POp::Recv).boxed()));
     }
     proptest::strategy::Union::new_weighted(v).boxed()
@@ -178,3 +178,56 @@ engb_prop!(C07, "C07", LIST_FL, false, false, 64_000, 2_000_000,
 engb_prop!(C12, "C12", ALL_FL, true, true, 48_000, 1_500_000,
     "Engine B programs extended with owned buffers created on one thread and sent to / dropped on another (harness mailbox carrying a vector clock), arena clones created and dropped by threads. A FastTrack-style detector is driven by the hook's event stream with the orderings the code actually passes: release clocks per atomic location (store Release sets, relaxed store clears, RMW joins and continues the release sequence), acquire on loads / failed CAS with an acquiring ordering; per-byte shadow of the last write and last reads for the owners' plain accesses, the arena's zeroing, the arena's atomic accesses inside arena memory and the final release of the backing memory. Race = two accesses to a common byte by different threads, at least one a write, at least one non-atomic, unordered. The original arena value is moved into thread 0 and the main thread keeps none, so the backing memory is released by whichever thread drops the last value, under the scheduler, and that release is checked as a plain write to every byte. Non-trivial = a byte range changed owner thread at least once, or the last arena value was dropped by a thread other than the creator's",
     |r| r.owner_changes >= 1 || r.classes.contains("last-drop-on-non-creator-thread"));
+
+// ------------------------------------------------------------------------------------------ C13
+// single-threaded histories (Engine A) plus multi-threaded clone/drop interleavings (Engine B)
+
+#[derive(Clone, Debug, serde::Serialize, serde::Deserialize)]
+pub enum CaseC13 {
+    A(CaseA),
+    B(CaseB),
+}
+
+pub struct C13;
+impl Prop for C13 {
+    type Case = CaseC13;
+    const ID: &'static str = "C13";
+    const SHRINK_ITERS: u32 = 1200;
+    fn strategy(tier: Tier) -> BoxedStrategy<CaseC13> {
+        prop_oneof![
+            5 => <C13A as Prop>::strategy(tier).prop_map(CaseC13::A),
+            1 => case_b_strategy(tier, ALL_FL, true).prop_map(CaseC13::B),
+        ]
+        .boxed()
+    }
+    fn run(case: &CaseC13) -> CaseReport {
+        match case {
+            CaseC13::A(c) => <C13A as Prop>::run(c),
+            CaseC13::B(c) => {
+                let r = run_case_b(c, &OptsB { detect_races: false, owner: "C13" });
+                let mut classes: BTreeSet<&'static str> = r.classes.clone();
+                classes.insert("threaded-case");
+                crate::runner::bump("scheduled_steps", r.steps);
+                let nontrivial = !r.inconclusive && classes.contains("unmounted-by-a-scheduled-thread") && (classes.contains("thread-cloned-arena") || classes.contains("owned-buffer-sent"));
+                CaseReport { nontrivial, classes, viol: r.viol }
+            }
+        }
+    }
+    fn cases(tier: Tier) -> u64 {
+        scale(tier, 28_000, 700_000)
+    }
+    fn rule() -> &'static str {
+        "5/6 of the cases: Engine A 'handles' histories: arena clone/drop (original may go first), every alloc flavour borrowed/owned, detach, drop in any order, drop-counting value types, generated teardown order; per drop the state delta must equal exactly one dealloc(buffer_offset, buffer_capacity) (cursor move, or one node inside the extent, or discarded += extent), a detached drop changes nothing, the value is dropped exactly once / not at all when detached, refs() == live arena values + owned handles, the Unmount event fires exactly once, at the drop that brings the count to zero. 1/6 of the cases: Engine B programs in which 2-4 threads clone and drop arena values and create, send and drop owned buffers under a generated schedule; the original arena value lives in thread 0 and the main thread keeps none: every access to the reference count (fetch_add, fetch_sub, load) must observe exactly the number of arena values alive in the model, the backing memory is released exactly once, by the thread that drops the last value, while no other value is alive. Non-trivial (A) = an owned handle outlived the original arena value and a drop-type value was dropped through a handle; (B) = the memory was released by a scheduled thread in a case with thread-made clones or a sent owned buffer"
+    }
+    fn assumptions() -> Vec<&'static str> {
+        let mut v = <C13A as Prop>::assumptions();
+        v.extend(B_ASSUME.iter().copied());
+        v
+    }
+    fn simplify(c: &CaseC13) -> Vec<CaseC13> {
+        match c {
+            CaseC13::A(c) => simplify_case_a(c).into_iter().map(CaseC13::A).collect(),
+            CaseC13::B(c) => simplify_b(c).into_iter().map(CaseC13::B).collect(),
+        }
+    }
+}
